@@ -29,6 +29,11 @@ CLAIMS = {
    note="Platform fixed to LP64 (performArithmeticConversions has no platform parameter); L/u/U character constants use the built-in fallback types; bitwise/logical operators record no type and are outside the property's list; hex floats are not lexed by the front end.",
    technique="Lean 4 proof by complete case analysis + induction (unbounded values/spellings); exhaustive differential correspondence with the real type checker",
    ref="DESIGN.md §4 C13"),
+ "C16": dict(
+   text="Lean 4 theorems (Props/C16.lean): the front end's position computation (vector of line starts recorded by the lexer, upper_bound binary search, column subtraction, line-marker re-basing) equals a left-to-right scan of the text for EVERY text and offset (induction over the text, generalised over base offset and accumulated line/column); on the scan: k line breaks inserted at a line boundary before a token add exactly k to its line and keep its column, k blanks inserted before it on its line add exactly k to its column, text after the token is irrelevant, the line distance between a marker and a later token does not depend on the text before the marker; the same laws restated for computePosition and SyntaxToken::location. Tie: hand model <-> real computePosition / newDiagnostic / location() on every token and diagnostic of ~1,200 (thorough 20,000) generated texts incl. excerpts; oracle: the relational laws evaluated on the implementation itself (4 transformed variants per text).",
+   note="UTF-8 decoding of yyinput_CORE (bytes -> code units) is modelled for the driver but the theorems are stated on code-unit sequences; markers must stand alone on their line in generated texts; Qt-Creator expansion records are not covered; excerpt/caret construction is modelled and compared, its law is checked on the implementation, not proved.",
+   technique="Lean 4 proof by induction over the text (binary-search computation = scan; relational laws) + differential correspondence + metamorphic checks on the implementation",
+   ref="DESIGN.md §4 C16"),
  "C17": dict(
    text="Lean 4: generic theorem about the if/else-if trie interpreter (for every well-formed trie, every word of any length and every option valuation: recognised as kind k iff some root-to-return path spells exactly that word, carries kind k and has all its guards true) + four kernel-checked (decide) obligations on the trie that translators/keywords.py REGENERATES from C/parser/Keywords.cpp on every run: no sibling shadowing, nothing after nested chains, every keyword path tests exactly positions 0..n-1 (in bounds), distinct case labels, and set-equality of (spelling, kind, gate) with the hand-written specification table (C89/C99/C11 keywords, macro translations, GNU alternate keywords, extension switches). Corollaries: keyword iff exact spelling and gate; every other word (prefixes, one-character edits, case variants) is an identifier; recognition off => identifier or iso646 operator name. The translator is validated each run by lexing ~14k words x 85 option sets through the real SyntaxTree/Lexer and through the generated trie; the spec table evaluated directly is the oracle that yields failing (options, word) pairs.",
    note="The translator accepts a restricted C++ subset and fails loudly outside it (then: committed trie + full validation, reported as no-failing-input-found). Gates that no standard/manual fixes are recorded from the implementation (listed in KeywordSpec.lean). Reading a character past the word is excluded by the in-bounds obligation, not by running under a sanitizer.",
